@@ -151,6 +151,9 @@ def run(ctx):
         if outs_only and len(prog["inputs"]) + len(outs_only) > 1:
             victims.append(("output-not-in-port-list", drop(hdr, outs_only[-1]) + rest))
         victims.append(("undeclared-port", hdr + ", zz_undeclared " + rest))
+        plain_wires = [w for w in prog["wires"] if not w.startswith("\\")]
+        if plain_wires:
+            victims.append(("wire-only-port", hdr + ", " + plain_wires[0] + " " + rest))
         for kind, text in victims:
             c, e = call(cgio.verilog_to_circuit, text, "top", False, bbl)
             ctx.side("portlist-" + kind, e is not None, f"verilog-reader:portlist-accepted:{kind}", f"port list mismatch ({kind}) silently accepted", {"case": cid, "text": text[:1500]})
